@@ -812,7 +812,8 @@ func (a *exAgg) coverage(rule string) map[string]any {
 		}
 	}
 	return map[string]any{
-		"evaluations":         a.Cases,
+		"evaluations":         a.St.Events,
+		"sequences":           a.Cases,
 		"distinct_nontrivial": nontrivial,
 		"rule":                rule,
 		"samples":             a.Samples,
